@@ -74,6 +74,7 @@ def plan(tier, seed):
     m = 1 if q else 20
     out = [{"name": "gen%d" % i, "kind": "scopes", "root": "gen", "n": 30 * m} for i in range(6)]
     out += [{"name": "small%d" % i, "kind": "scopes", "root": "small", "n": 35 * m} for i in range(2)]
+    out += [{"name": "cart%d" % i, "kind": "scopes", "root": "cart", "n": 8 * m} for i in range(2)]
     out += [{"name": "asm%d" % i, "kind": "scopes", "root": "asm", "n": 60 * m} for i in range(3)]
     out += [{"name": "blk%d" % i, "kind": "scopes", "root": "blk", "n": 120 * m} for i in range(2)]
     out += [{"name": "ro%d" % i, "kind": "readonly", "n": 10 * m} for i in range(2)]
@@ -577,6 +578,20 @@ def make_root(rng, kind):
         with quiet():
             o, r = loadTestReactor(TEST_ROOT, inputFileName="smallestTestReactor/armiRunSmallest.yaml")
         return r, {"cs": o.cs, "bp": r.blueprints, "kind": "smallestTestReactor"}
+    if kind == "cart":
+        # a Cartesian core that is not through the centre assembly: its grid carries a non-zero offset that scales with the pitch
+        import os
+
+        from armi import settings
+        from armi.reactor import blueprints, reactors
+        from armi.tests import TEST_ROOT
+        from vlib.env import quiet
+
+        cs = settings.Settings(fName=os.path.join(TEST_ROOT, "c5g7", "c5g7-settings.yaml"))
+        with quiet():
+            bp = blueprints.loadFromCs(cs)
+            r = reactors.factory(cs, bp)
+        return r, {"cs": cs, "bp": bp, "kind": "c5g7 (Cartesian, offset grid)"}
     if kind == "asm":
         pitch = rng.uniform(8, 14)
         nb = rng.randint(1, 4)
@@ -833,7 +848,10 @@ def edit_api(ctx):
         g = core.spatialGrid
         if not hasattr(g, "changePitch"):
             return
-        g.changePitch(g.pitch * rng.uniform(.8, 1.5))
+        if isinstance(g.pitch, tuple):  # Cartesian: (x, y)
+            g.changePitch(g.pitch[0] * rng.uniform(.8, 1.5), g.pitch[1] * rng.uniform(.8, 1.5))
+        else:
+            g.changePitch(g.pitch * rng.uniform(.8, 1.5))
         ctx.log("core.spatialGrid.changePitch")
     elif op == "warm":
         tgt = rng.choice(blks or comps or pool)
@@ -1423,7 +1441,7 @@ def diff_all(a, b, nodes):
 
 # ----------------------------------------------------------------------------- one scope history
 TARGET_LEVELS = {"gen": ["Reactor", "Core", "Assembly", "Block", "Component"], "small": ["Reactor", "Core", "Assembly", "Block", "Component"],
-                 "asm": ["Assembly", "Block", "Component"], "blk": ["Block", "Component"]}
+                 "cart": ["Reactor", "Core", "Core", "Assembly"], "asm": ["Assembly", "Block", "Component"], "blk": ["Block", "Component"]}
 
 
 def scope_case(rec, rng, rootkind, case):
